@@ -527,6 +527,13 @@ class TupimageTerminal:
             max_cols=max_cols, max_rows=max_rows
         )
         cell_width, cell_height = self.get_cell_size()
+        # An explicitly specified dimension cannot exceed its limit. Clamp it before
+        # the other dimension is derived from it, otherwise the derived dimension
+        # would be computed for a box that is later shrunk (leaving unused cells).
+        if cols is not None:
+            cols = min(cols, max_cols)
+        if rows is not None:
+            rows = min(rows, max_rows)
         # Combine global and local scale factors
         local_scale = scale or self._config.scale
         effective_scale = self._config.global_scale * (
